@@ -32,6 +32,7 @@ _RC = [
     "sint_parse_truncated_refused", "sint_parse_unterminated_refused", "sint_parse_11_byte_form", "sint_parse_overflow_form", "sintx_two_byte_buffers",
     "ser_raw_exact_cap", "ser_raw_append_refused", "ser_vector", "ser_big", "ser_little",
     "des_truncated_refused", "des_fetch_refused_at_end", "des_huge_size_probe",
+    "des_pod_odd_size_big_endian", "des_pod_odd_size_little_endian", "des_pod_size_1", "des_pod_big_endian", "des_pod_little_endian",
     "hex_empty_value", "hex_len_65535", "hex_fixed_exact_cap", "hex_fixed_truncated_by_cap", "hex_invalid_digit_thrown", "hex_odd_length",
     "url_roundtrip", "url_high_bytes", "url_invalid_escape_thrown", "url_truncated_escape", "url_decode_valid",
     "crc16", "crc32", "sum8", "sum16_odd", "sum16_even",
@@ -75,7 +76,8 @@ PROP = dict(
           "from the whole and from a cut input, with never-satisfiable size requests (remaining+1 .. SIZE_MAX) interleaved. "
           "url: UrlEncode in both modes on arbitrary bytes, UrlDecode of it and unquote_to_bytes of it must give the input back; hostile escapes; Url struct parsers for clean behaviour only. "
           "digest: CRC-16/CRC-32 with default and arbitrary seeds, 8/16-bit sums, MD5 fed as 1..7 pieces (zero-length pieces, cuts on and next to 64-byte edges), "
-          "AES-128 cipher/invcipher on two key/block pairs. Every 500th digest case is a large input instead: 64 KiB..16 MiB (65535/65536/65537, 131074..131076, 262142..262146, "
+          "AES-128 cipher/invcipher on two key/block pairs. md5-huge: zero-filled messages of 2^29-64, 2^29-1, 2^29, 2^29+1000 bytes x {one update, 1 MiB pieces, 300 MiB + rest, 37 bytes then 96 MiB+5 pieces} "
+          "against digests produced once with hashlib and hard-coded in the harness. Every 500th digest case is a large input instead: 64 KiB..16 MiB (65535/65536/65537, 131074..131076, 262142..262146, "
           "1 MiB, 1 MiB+1, 2 MiB-2, 4 MiB, 8 MiB+3, 16 MiB, random 4..16 MiB) filled with 0xFF / 0x00 / 0x80 / ff00 / 00ff / a random block of prime period / "
           "a random high-valued block, described to the reference as (size, block) and pushed through both CRCs, both sums and MD5 (at once or in up to four big pieces); "
           "sizes and fills are walked deterministically so every run meets 16-bit word sums above 2^32. md5split: every split of an n-byte message into three updates. "
@@ -90,7 +92,7 @@ PROP = dict(
         "additionally required to refuse only where the input is unambiguously outside the format (length not a multiple of 4 / byte outside the alphabet before the "
         "first '=' for Base64; non-hex digit or odd length for hex; no terminator within ten bytes for scalable integers; request larger than the remaining input for "
         "the deserializer). 10-byte scalable forms above 2^64-1 and percent signs not followed by two hex digits are only required to be handled cleanly",
-        "hex delimiters contain no hex digits; MD5 messages are below 2^29 bytes; Serializer::append(ptr, n) is never told a size larger than the block it is given",
+        "hex delimiters contain no hex digits; MD5 messages stay below 4 GiB per update() call (the md5-huge leg goes to 2^29+1000 bytes); Serializer::append(ptr, n) is never told a size larger than the block it is given",
         "the python standard library (base64, binascii, zlib, hashlib, struct, urllib.parse) is the reference; the AES and checksum references are self-checked "
         "against FIPS-197 appendix B/C.1, RFC 1321 A.5, the CRC catalogue check values and the RFC 1071 example before the first answer",
     ],
